@@ -176,3 +176,44 @@ def to_binary(vc):
             vc.prove("post.independent-parser-reads-the-same-fields",
                      [(c.tags, c.stored(key), c.declared) for c in parsed.value] ==
                      [(c.tags, c.stored(key), c.declared) for c in spec])
+
+
+# ---------------------------------------------------------------------------------------
+# the public writers hand THEIR session key to the serializer: write_file(f, k) writes "BF3\0\0" + to_binary(5, k) with the
+# object's comments (to_binary by its contract above) - for every key, not only the default one
+
+@proof("C03/write_file.passes-key-and-offset", functions=[(MOD, "Bf3File.write_file")],
+       family=lambda seed, tier: [dict(key=bytes(16)), dict(key=bytes(range(1, 17))), dict(key=b"\xff" * 16)])
+def write_file_key(vc):
+    M = vc.module(MOD)
+    key = vc.bytes("key", 16)
+    if vc.symbolic:
+        body = vc.fresh_bytes("body", vc.fresh_int("bl", 0, 1 << 24))
+        calls, out = [], []
+        f = M.Bf3File.__new__(M.Bf3File)
+        f.comments = {"Creator": "x"}
+        f.components = []
+        f.to_binary = lambda offset=0, session_key=None: (calls.append((offset, session_key)), body)[1]
+        f.write_bf3_format = lambda target, comments, raw: out.append((target, comments, raw))
+        sink = object()
+        f.write_file(sink, key)
+        vc.prove("serializer-called-once-with-offset-5-and-THIS-key", len(calls) == 1 and calls[0][0] == 5 and calls[0][1] == key)
+        vc.prove("text-writer-gets-signature+body-and-the-comments",
+                 len(out) == 1 and out[0][0] is sink and out[0][1] is f.comments and out[0][2] == vc.cat(b"BF3\0\0", body))
+        f2 = M.Bf3File.__new__(M.Bf3File)
+        f2.comments, f2.components = {}, []
+        calls2 = []
+        f2.to_binary = lambda offset=0, session_key=None: (calls2.append((offset, session_key)), body)[1]
+        f2.write_bf3_format = lambda target, comments, raw: None
+        f2.write_file(sink)
+        vc.prove("default-key-is-all-zero", len(calls2) == 1 and calls2[0][1] == bytes(16))
+        vc.cover("written")
+        return
+    import io
+    from spec import layout
+    f = M.Bf3File({"a": "b"}, [M.Bf3Component({0xC3: b"\x02"}, b"firmware-bytes!")])
+    s = io.StringIO()
+    f.write_file(s, key)
+    hexbody = "".join(s.getvalue().split("\n")[2:])
+    want = layout.bf3_binary([layout.Comp([(0xC3, b"\x02")], b"firmware-bytes!", 15, False)], key)
+    vc.prove("written-binary=layout-under-THIS-key", bytes.fromhex(hexbody) == want)
